@@ -104,7 +104,7 @@ Definition cfg_without_common : vcfg :=
   {| f_check_preds := true; f_unrev_in_schema := true; f_unrev_intervals := true; f_gate_on_creddef := true;
      f_require_nrp := true; f_w3c_strict_subject := true; f_common_link := false; f_bind_schema := true;
      f_w3c_norm_keys := true; f_marker := true; f_no_index_panic := true; f_no_unwrap_panic := true;
-     f_pred_range := true; f_w3c_pred_cv := true; f_group_unrevealed := true; f_group_keys := true; f_w3c_nrp_search := true |}.
+     f_pred_range := true; f_w3c_pred_cv := true; f_group_unrevealed := true; f_group_keys := true; f_w3c_nrp_search := true; f_restr_revealed_first := true |}.
 Lemma c05_unfixed_refuted :
   verify_legacy cfg_without_common c05_R c05_P c05_cx = Accept /\
   ok_C05 (CLegacy c05_R c05_P c05_cx) (verify_legacy cfg_without_common c05_R c05_P c05_cx) = false /\
